@@ -59,7 +59,7 @@ def cases(tier, seed):
     # categories fall hundreds of orders of magnitude below the invariant one, which then dies where the odd taxon joins
     k = 0
     for shape in shapes:
-        for model in ("JC69+I", "HKY+I", "GTR+W4"):
+        for model in ("JC69+I", "HKY+I", "GTR+W4", "HKY+I0"):
             for t in ([-330.0, -600.0] if tier == "quick" else [-310.0, -330.0, -400.0, -600.0, -1000.0]):
                 for odd in (["last"] if tier == "quick" else ["first", "middle", "last"]):
                     k += 1
@@ -89,6 +89,8 @@ def make(case, N):
         subst, site = {"kind": "JC69"}, {"kind": "constant"}
     elif m == "JC69+I":
         subst, site = {"kind": "JC69"}, {"kind": "invariant", "pinv": 0.2}
+    elif m == "HKY+I0":
+        subst, site = {"kind": "HKY", "kappa": 3.0, "pi": [0.1, 0.2, 0.3, 0.4]}, {"kind": "invariant", "pinv": 0.0}  # an invariant category of probability exactly 0
     elif m == "HKY+I":
         subst, site = {"kind": "HKY", "kappa": 3.0, "pi": [0.1, 0.2, 0.3, 0.4]}, {"kind": "invariant", "pinv": 0.3}
     elif m.startswith("HKY"):
